@@ -98,13 +98,29 @@ class Interp:
             elif isinstance(e, dict) and "i" in e:
                 idx = fr.locals.get(e["i"], UNKNOWN)
                 if isinstance(v, tuple) and v[0] == "array" and isinstance(idx, int) and idx < len(v[1]):
+                    win = len(v) > 2 and v[2] == "window"
                     v = v[1][idx]
+                    if win and isinstance(v, tuple) and v[0] == "ref":
+                        v = self.load_ref(v)          # a window's slots alias the parent's elements
                 else:
                     return UNKNOWN
             elif isinstance(e, dict) and "ci" in e:
                 if isinstance(v, tuple) and v[0] == "array":
                     i = len(v[1]) - e["ci"] if e["fe"] else e["ci"]
+                    win = len(v) > 2 and v[2] == "window"
                     v = v[1][i] if 0 <= i < len(v[1]) else UNKNOWN
+                    if win and isinstance(v, tuple) and v[0] == "ref":
+                        v = self.load_ref(v)
+                else:
+                    return UNKNOWN
+            elif isinstance(e, dict) and "sub" in e:
+                # slice pattern `[a, rest @ ..]`: the sub-slice from..(len - to | to)
+                if isinstance(v, tuple) and v[0] == "array":
+                    fr_, to_, from_end = e["sub"]
+                    hi = len(v[1]) - to_ if from_end else to_
+                    if not (0 <= fr_ <= hi <= len(v[1])):
+                        return UNKNOWN
+                    v = ("array", list(v[1][fr_:hi])) + tuple(v[2:])
                 else:
                     return UNKNOWN
             elif isinstance(e, dict) and "dc" in e:
@@ -159,6 +175,10 @@ class Interp:
             elif isinstance(e, dict) and ("i" in e or ("ci" in e and not e.get("fe"))):
                 idx = cur_fr.locals.get(e["i"], UNKNOWN) if "i" in e else e["ci"]
                 if isinstance(v, tuple) and v[0] == "array" and isinstance(idx, int) and idx < len(v[1]):
+                    if len(v) > 2 and v[2] == "window" and isinstance(v[1][idx], tuple) and v[1][idx][0] == "ref":
+                        # a window's slot aliases the parent's element: the store goes there
+                        _t, f2, l2, p2 = v[1][idx]
+                        return self._store(f2, l2, list(p2) + self._resolve_projs(cur_fr, rest[i + 1:]), val)
                     if last:
                         v[1][idx] = val
                         return
@@ -431,7 +451,16 @@ class Interp:
         fr = Frame(body, env)
         for i, a in enumerate(args):
             fr.locals[i + 1] = a
-        return self.run(fr, depth)
+        try:
+            return self.run(fr, depth)
+        except Undecided as e:
+            # remember the interpreted call chain for diagnostics (innermost first)
+            st = getattr(e, "stack", None)
+            if st is None:
+                st = e.stack = []
+            if len(st) < 12:
+                st.append(body.path)
+            raise
 
     def run(self, fr, depth):
         body = fr.body
@@ -488,7 +517,15 @@ class Interp:
                 bb = t["t"]
             elif k == "Call":
                 args = [self.operand(fr, a) for a in t["args"]]
-                res = self.do_call(fr, t, args, depth)
+                try:
+                    res = self.do_call(fr, t, args, depth)
+                except Undecided as e:
+                    st = getattr(e, "stack", None)
+                    if st is None:
+                        st = e.stack = []
+                    if len(st) < 12:
+                        st.append("  called at %s" % body.where(bb, None))
+                    raise
                 self.write_place(fr, t["dest"], res)
                 if t["t"] is None:
                     raise Panic("diverging call at %s" % body.where(bb, None))
@@ -558,6 +595,11 @@ class Interp:
                 kind = "int"
             elif isinstance(v, tuple) and v[0] == "tuple":
                 kind = "tuple%d" % len(v[1])
+            elif isinstance(v, tuple) and v[0] == "array":
+                # impl Trait for [T] / [T; N]
+                sl_ = [b for b in cands if (b.impl_self or "").startswith("[")]
+                if len(sl_) == 1:
+                    return sl_[0]
         else:
             self_ty = self.resolve_generic((callee.get("args") or ["?"])[0], env or {})
             kind = self_ty if isinstance(self_ty, str) else None
@@ -632,6 +674,8 @@ class Interp:
                 env.update(self.infer_env(tb, args))
                 return self.call_body(tb, args, depth + 1, env=env)
         self.trace.append("unmodelled call: %s" % path)
+        if getattr(self, "strict_calls", False):
+            raise Undecided("unmodelled call: %s with %s" % (path, [str(deref_all(self, a))[:80] for a in args]))
         return UNKNOWN
 
     def _is_decl_only(self, b):
@@ -797,6 +841,222 @@ def m_unwrap_or(it, args, callee, depth):
     return args[1] if o[2] == "None" else o[3][0]
 
 
+def m_int_try_from(it, args, callee, depth):
+    """<uN/iN as TryFrom<uM/iM>>::try_from on a constant: Ok(v) when v fits the target type"""
+    import re as _re2
+    c_ = callee or {}
+    p = " ".join([c_.get("path", ""), (c_.get("res") or {}).get("path", ""), c_.get("full", "")])
+    m = _re2.search(r"TryFrom<([iu](?:8|16|32|64|128|size))> for ([iu](?:8|16|32|64|128|size))>::try_from", p)
+    if not m:
+        m = _re2.search(r"<([iu](?:8|16|32|64|128|size)) as core::convert::TryFrom<([iu](?:8|16|32|64|128|size))>>::try_from", p)
+        if m:
+            m = _re2.match(r"(\S+) (\S+)", "%s %s" % (m.group(2), m.group(1)))
+    v = deref_all(it, args[0])
+    if not m or not isinstance(v, int):
+        return NotImplemented
+    src, dst = m.group(1), m.group(2)
+    sb, db = INT_BITS.get(src, 64), INT_BITS.get(dst, 64)
+    val = v - (1 << sb) if src.startswith("i") and (v >> (sb - 1)) & 1 else v
+    lo, hi = (-(1 << (db - 1)), (1 << (db - 1)) - 1) if dst.startswith("i") else (0, (1 << db) - 1)
+    if lo <= val <= hi:
+        return ("adt", "core::result::Result", "Ok", [val & ((1 << db) - 1)])
+    return ("adt", "core::result::Result", "Err", [("adt", "core::num::TryFromIntError", "TryFromIntError", [])])
+
+
+def _opt(it, v, what):
+    o = deref_all(it, v)
+    if not (isinstance(o, tuple) and o[0] == "adt" and o[2] in ("Some", "None", "Ok", "Err")):
+        raise Undecided("%s on undecided value" % what)
+    return o
+
+
+OK_ = lambda x: ("adt", "core::result::Result", "Ok", [x])          # noqa: E731
+ERR_ = lambda x: ("adt", "core::result::Result", "Err", [x])        # noqa: E731
+
+
+def m_opt_combinator(name):
+    """Option / Result combinators on decided values (closures are invoked through the interpreter)"""
+    def f(it, args, callee, depth):
+        o = _opt(it, args[0], name)
+        good = o[2] in ("Some", "Ok")
+        is_res = o[2] in ("Ok", "Err")
+        if name == "flatten":
+            return _opt(it, o[3][0], name) if good else o
+        if name == "and_then":
+            return it.invoke(args[1], [o[3][0]], depth) if good else o
+        if name == "filter":
+            return o if good and deref_all(it, it.invoke(args[1], [ref_to_value(o[3][0])], depth)) else NONE
+        if name == "ok_or":
+            return OK_(o[3][0]) if good else ERR_(args[1])
+        if name == "ok_or_else":
+            return OK_(o[3][0]) if good else ERR_(it.invoke(args[1], [], depth))
+        if name == "map_or_else":
+            return it.invoke(args[2], [o[3][0]], depth) if good else it.invoke(args[1], [] if not is_res else [o[3][0]], depth)
+        if name == "or":
+            return o if good else args[1]
+        if name == "or_else":
+            return o if good else it.invoke(args[1], [] if not is_res else [o[3][0]], depth)
+        if name == "and":
+            return args[1] if good else o
+        if name == "res_map":
+            return OK_(it.invoke(args[1], [o[3][0]], depth)) if good else o
+        if name == "map_err":
+            return o if good else ERR_(it.invoke(args[1], [o[3][0]], depth))
+        if name == "is_ok":
+            return int(good)
+        if name == "is_err":
+            return int(not good)
+        if name == "err":
+            return some(o[3][0]) if not good else NONE
+        if name == "copied":
+            return some(copy_val(deref_all(it, o[3][0]))) if good else o
+        if name == "zip":
+            o2 = _opt(it, args[1], name)
+            return some(("tuple", [o[3][0], o2[3][0]])) if good and o2[2] == "Some" else NONE
+        if name == "is_ok_and":
+            return it.invoke(args[1], [o[3][0]], depth) if good else 0
+        return NotImplemented
+    return f
+
+
+def ref_to_value(v):
+    cell = Frame(None)
+    cell.locals[0] = v
+    return ("ref", cell, 0, [])
+
+
+def m_opt_take(it, args, callee, depth):
+    r = args[0]
+    if not (isinstance(r, tuple) and r[0] == "ref"):
+        raise Undecided("Option::take through %r" % (r,))
+    old = it.load_ref(r)
+    it._store(r[1], r[2], list(r[3]), NONE)
+    return old
+
+
+def m_int_op(name):
+    """saturating / wrapping / abs_diff / pow on integer constants"""
+    def f(it, args, callee, depth):
+        vals = [deref_all(it, a) for a in args]
+        if not all(isinstance(v, int) for v in vals):
+            return NotImplemented
+        import re as _re3
+        c_ = callee or {}
+        m = _re3.search(r"<impl ([iu](?:8|16|32|64|128|size))>", " ".join([c_.get("path", ""), c_.get("full", "")]))
+        ty = m.group(1) if m else "usize"
+        bits = INT_BITS.get(ty, 64)
+        signed = ty.startswith("i")
+        lo, hi = (-(1 << (bits - 1)), (1 << (bits - 1)) - 1) if signed else (0, (1 << bits) - 1)
+
+        def sg(x):
+            x &= (1 << bits) - 1
+            return x - (1 << bits) if signed and (x >> (bits - 1)) & 1 else x
+        a = sg(vals[0])
+        b = sg(vals[1]) if len(vals) > 1 else None
+        if name.startswith("saturating_"):
+            r = {"saturating_sub": lambda: a - b, "saturating_add": lambda: a + b, "saturating_mul": lambda: a * b}[name]()
+            r = min(max(r, lo), hi)
+        elif name.startswith("wrapping_"):
+            r = {"wrapping_sub": lambda: a - b, "wrapping_add": lambda: a + b, "wrapping_mul": lambda: a * b}[name]()
+        elif name == "abs_diff":
+            r = abs(a - b)
+        else:
+            return NotImplemented
+        return r & ((1 << bits) - 1)
+    return f
+
+
+def m_prim_op(op, assign=False):
+    """operator traits on primitives reached through references (`&u8 & u8`, `*x |= y` on a `&mut u8`, `&a % &b` ...)"""
+    def f(it, args, callee, depth):
+        res = ((callee or {}).get("res") or {}).get("path", "")
+        if res and res in it.prog.bodies:
+            return NotImplemented
+        import re as _re5
+        c_ = callee or {}
+        p = " ".join([c_.get("path", ""), c_.get("full", ""), res])
+        m = _re5.search(r"<&?(?:mut )?([iuf](?:8|16|32|64|128|size)|bool) as core::ops::", p) or _re5.search(r"impl core::ops::[a-z]+::\w+(?:<&?\w+>)? for &?([iuf](?:8|16|32|64|128|size)|bool)>", p)
+        if not m:
+            return NotImplemented
+        ty = m.group(1)
+        a = deref_all(it, args[0])
+        if op == "Not":
+            if isinstance(a, int):
+                bits = 1 if ty == "bool" else INT_BITS.get(ty, 64)
+                return (~a) & ((1 << bits) - 1)
+            return NotImplemented
+        b = deref_all(it, args[1])
+        ok = lambda x: isinstance(x, int) or (isinstance(x, tuple) and x[0] in ("sym", "symop", "f"))       # noqa: E731
+        if not (ok(a) and ok(b)):
+            return NotImplemented
+        r = it.binop(op, a, b, ty)
+        if assign:
+            r0 = args[0]
+            if not (isinstance(r0, tuple) and r0[0] == "ref"):
+                return NotImplemented
+            it._store(r0[1], r0[2], list(r0[3]), r)
+            return ("tuple", [])
+        return r
+    return f
+
+
+def m_default(it, args, callee, depth):
+    """<T as Default>::default for primitives and Option"""
+    c_ = callee or {}
+    p = " ".join([c_.get("path", ""), c_.get("full", ""), (c_.get("res") or {}).get("path", "")])
+    import re as _re4
+    m = _re4.search(r"<([a-z0-9]+) as core::default::Default>::default", p)
+    if m:
+        t = m.group(1)
+        if t in INT_BITS or t == "bool":
+            return 0
+        if t in ("f32", "f64"):
+            return ("f", 0.0)
+    if "<core::option::Option<" in p and "as core::default::Default>::default" in p:
+        return NONE
+    return NotImplemented
+
+
+def m_range_len(it, args, callee, depth):
+    v = deref_all(it, args[0])
+    if isinstance(v, tuple) and v[0] == "adt" and v[1].endswith("ops::range::Range") and all(isinstance(x, int) for x in v[3]):
+        return max(0, v[3][1] - v[3][0])
+    return NotImplemented
+
+
+def m_bool_then(it, args, callee, depth):
+    c = deref_all(it, args[0])
+    if not isinstance(c, int):
+        raise Undecided("bool::then on undecided condition %r" % (c,))
+    p = (callee or {}).get("path", "")
+    if not c:
+        return ("adt", "core::option::Option", "None", [])
+    return ("adt", "core::option::Option", "Some", [args[1] if p.endswith("then_some") else it.invoke(args[1], [], depth)])
+
+
+def m_unwrap_or_else(it, args, callee, depth):
+    o = deref_all(it, args[0])
+    if not (isinstance(o, tuple) and o[0] == "adt" and o[2] in ("Some", "None", "Ok", "Err")):
+        raise Undecided("unwrap_or_else on undecided value")
+    if o[2] in ("Some", "Ok"):
+        return o[3][0]
+    return it.invoke(args[1], [] if o[2] == "None" else [o[3][0]], depth)
+
+
+def m_result_unwrap_or(it, args, callee, depth):
+    o = deref_all(it, args[0])
+    if not (isinstance(o, tuple) and o[0] == "adt" and o[2] in ("Ok", "Err")):
+        raise Undecided("Result::unwrap_or on undecided result")
+    return o[3][0] if o[2] == "Ok" else args[1]
+
+
+def m_result_ok(it, args, callee, depth):
+    o = deref_all(it, args[0])
+    if not (isinstance(o, tuple) and o[0] == "adt" and o[2] in ("Ok", "Err")):
+        raise Undecided("Result::ok on undecided result")
+    return ("adt", "core::option::Option", "Some", [o[3][0]]) if o[2] == "Ok" else ("adt", "core::option::Option", "None", [])
+
+
 def m_unwrap(it, args, callee, depth):
     p = (callee or {}).get("path", "")
     if not p.endswith(("Option::<T>::unwrap", "Option::<T>::expect")):
@@ -938,7 +1198,11 @@ def m_index(it, args, callee, depth):
                     raise Panic("slice index out of range")
                 cell = Frame(None)
                 # a WINDOW: its elements are aliases of the parent's elements (iteration/indexing yields those references themselves)
-                cell.locals[0] = ("array", [("ref", r[1], r[2], list(r[3]) + [{"ci": k, "ml": 0, "fe": False}]) for k in range(lo, hi)], "window")
+                if len(tgt) > 2 and tgt[2] == "window":
+                    # a window of a window aliases the same underlying elements
+                    cell.locals[0] = ("array", [tgt[1][k] for k in range(lo, hi)], "window")
+                else:
+                    cell.locals[0] = ("array", [("ref", r[1], r[2], list(r[3]) + [{"ci": k, "ml": 0, "fe": False}]) for k in range(lo, hi)], "window")
                 return ("ref", cell, 0, [])
     return UNKNOWN
 
@@ -963,6 +1227,56 @@ def m_from_residual(it, args, callee, depth):
 
 
 STD_MODELS = [
+    # longer names first: the keys are matched as substrings
+    ("Option::<core::option::Option<T>>::flatten", m_opt_combinator("flatten")),
+    ("Option::<T>::and_then", m_opt_combinator("and_then")),
+    ("Option::<T>::filter", m_opt_combinator("filter")),
+    ("Option::<T>::ok_or_else", m_opt_combinator("ok_or_else")),
+    ("Option::<T>::ok_or", m_opt_combinator("ok_or")),
+    ("Option::<T>::map_or_else", m_opt_combinator("map_or_else")),
+    ("Result::<T, E>::map_or_else", m_opt_combinator("map_or_else")),
+    ("Option::<T>::or_else", m_opt_combinator("or_else")),
+    ("Result::<T, E>::or_else", m_opt_combinator("or_else")),
+    ("Option::<T>::or", m_opt_combinator("or")),
+    ("Option::<T>::and", m_opt_combinator("and")),
+    ("Option::<T>::zip", m_opt_combinator("zip")),
+    ("Option::<&T>::copied", m_opt_combinator("copied")),
+    ("Option::<&T>::cloned", m_opt_combinator("copied")),
+    ("Option::<&mut T>::copied", m_opt_combinator("copied")),
+    ("Option::<T>::take", m_opt_take),
+    ("Result::<T, E>::map_err", m_opt_combinator("map_err")),
+    ("Result::<T, E>::map", m_opt_combinator("res_map")),
+    ("Result::<T, E>::and_then", m_opt_combinator("and_then")),
+    ("Result::<T, E>::is_ok_and", m_opt_combinator("is_ok_and")),
+    ("Result::<T, E>::is_ok", m_opt_combinator("is_ok")),
+    ("Result::<T, E>::is_err", m_opt_combinator("is_err")),
+    ("Result::<T, E>::err", m_opt_combinator("err")),
+    ("ExactSizeIterator::len", m_range_len),
+    ("core::ops::bit::BitAndAssign", m_prim_op("BitAnd", True)),
+    ("core::ops::bit::BitOrAssign", m_prim_op("BitOr", True)),
+    ("core::ops::bit::BitXorAssign", m_prim_op("BitXor", True)),
+    ("core::ops::bit::ShlAssign", m_prim_op("Shl", True)),
+    ("core::ops::bit::ShrAssign", m_prim_op("Shr", True)),
+    ("core::ops::arith::AddAssign", m_prim_op("Add", True)),
+    ("core::ops::arith::SubAssign", m_prim_op("Sub", True)),
+    ("core::ops::arith::MulAssign", m_prim_op("Mul", True)),
+    ("core::ops::arith::DivAssign", m_prim_op("Div", True)),
+    ("core::ops::arith::RemAssign", m_prim_op("Rem", True)),
+    ("core::ops::bit::BitAnd", m_prim_op("BitAnd")),
+    ("core::ops::bit::BitOr", m_prim_op("BitOr")),
+    ("core::ops::bit::BitXor", m_prim_op("BitXor")),
+    ("core::ops::bit::Shl", m_prim_op("Shl")),
+    ("core::ops::bit::Shr", m_prim_op("Shr")),
+    ("core::ops::bit::Not", m_prim_op("Not")),
+    ("core::ops::arith::Rem", m_prim_op("Rem")),
+    ("core::default::Default>::default", m_default),
+    (">::saturating_sub", m_int_op("saturating_sub")),
+    (">::saturating_add", m_int_op("saturating_add")),
+    (">::saturating_mul", m_int_op("saturating_mul")),
+    (">::wrapping_sub", m_int_op("wrapping_sub")),
+    (">::wrapping_add", m_int_op("wrapping_add")),
+    (">::wrapping_mul", m_int_op("wrapping_mul")),
+    (">::abs_diff", m_int_op("abs_diff")),
     ("core::ops::try_trait::Try::branch", m_try_branch),
     ("core::ops::try_trait::FromResidual::from_residual", m_from_residual),
     ("core::ops::index::Index::index", m_index),
@@ -977,7 +1291,13 @@ STD_MODELS = [
     ("Option::<T>::map", m_map),
     ("Option::<T>::is_some_and", m_is_some_and),
     ("Option::<T>::is_none_or", m_is_none_or),
+    ("Option::<T>::unwrap_or_else", m_unwrap_or_else),
+    ("Result::<T, E>::unwrap_or_else", m_unwrap_or_else),
+    ("bool>::then", m_bool_then),
     ("Option::<T>::unwrap_or", m_unwrap_or),
+    ("Result::<T, E>::unwrap_or", m_result_unwrap_or),
+    ("Result::<T, E>::ok", m_result_ok),
+    ("::try_from", m_int_try_from),
     ("Option::<T>::unwrap", m_unwrap),
     ("Option::<T>::expect", m_unwrap),
     ("Option::<T>::is_some", m_is_some),
